@@ -206,7 +206,8 @@ func realClientRefServer(name string, iat int, bias bool, seedNo int, pad int, w
 			var rs *o4h.RefSession
 			sent := 0
 			all := append(append([]int{}, withData...), later...)
-			res := sched.Run(c, sched.Options{NoPreempt: true, NoEarlyTimers: true, MaxSteps: 2_000_000}, func() {
+			// (the client keeps reading after the server's last byte: main stays parked in Read)
+			res := sched.Run(c, sched.Options{NoPreempt: true, NoEarlyTimers: true, MaxSteps: 2_000_000, MainMayBlock: true}, func() {
 				s := sched.Cur()
 				s.Spawn("ref-server", func() {
 					opts := o4h.ServerOpts{PadLen: pad, LenSeed: br.Seed}
@@ -646,10 +647,13 @@ func duplexStmt(name string, role string, iat int, bound int, seed int64) mc.Sce
 // connections wrapped by one server factory), each with a reader and a writer
 // thread, interleaved at every statement of Read/Write/packet/framing code.
 // Connections must not influence each other (no state shared across them).
-func twoConnStmt(name string, role string, iat int, bound int, seed int64) mc.Scenario {
+// prior: an earlier connection of the same process (same factory) that carried
+// data and was then closed TWICE -- obfs4proxy's relay closes every connection
+// from both copy directions and once more on the way out.
+func twoConnStmt(name string, role string, iat int, bound int, seed int64, prior bool) mc.Scenario {
 	return mc.Scenario{
 		Name:   name,
-		Params: map[string]any{"role": role, "iat": iat, "connections": 2},
+		Params: map[string]any{"role": role, "iat": iat, "connections": 2, "earlier_connection_closed_twice": prior},
 		Bound:  bound,
 		Weight: 500,
 		Run: func(c *mc.Ctx) {
@@ -683,6 +687,28 @@ func twoConnStmt(name string, role string, iat int, bound int, seed int64) mc.Sc
 						cs[0].hsErr = err
 						return
 					}
+				}
+				if prior {
+					inb := o4h.Pattern('p', 0, 200)
+					p := establish(s, role, br, sf, "-earlier", rnd.New(seed, "c01-ref-earlier-"+name), func(p *pairT) {
+						p.rs.Send(inb, 1)
+						for {
+							if _, err := p.rs.RecvOnce(); err != nil {
+								return
+							}
+						}
+					})
+					if p.hsErr != nil {
+						cs[0].hsErr = fmt.Errorf("earlier connection: %v", p.hsErr)
+						return
+					}
+					if _, err := io.ReadFull(p.conn, make([]byte, len(inb))); err != nil {
+						cs[0].hsErr = fmt.Errorf("earlier connection: read: %v", err)
+						return
+					}
+					p.conn.Write(o4h.Pattern('q', 0, 100))
+					p.conn.Close()
+					p.conn.Close()
 				}
 				hsDone := 0
 				for i, x := range cs {
@@ -1091,7 +1117,8 @@ func main() {
 				if iat == 2 && !cfg.Thorough() && role == "server" {
 					continue
 				}
-				emit(twoConnStmt(fmt.Sprintf("two-connections-stmt/%s/iat%d", role, iat), role, iat, 1, cfg.Seed))
+				emit(twoConnStmt(fmt.Sprintf("two-connections-stmt/%s/iat%d", role, iat), role, iat, 1, cfg.Seed, false))
+				emit(twoConnStmt(fmt.Sprintf("two-connections-stmt/%s/iat%d/after-a-connection-closed-twice", role, iat), role, iat, 1, cfg.Seed, true))
 			}
 		}
 		// reference server: handshake + payload coalesced, boundary splits
